@@ -51,6 +51,19 @@ Fixpoint pool_run (fused_amt committed uncommitted : Z) (cs : list cand) : Z * l
     end
   end.
 
+(* the same run, observed step by step: per candidate the verdict (0 accepted, 1..4 the error, 9 panic) and the
+   chain plasma of the account's unconfirmed store after it (what the harness reads from the real store) *)
+Fixpoint pool_trace (fused_amt committed uncommitted : Z) (cs : list cand) : list (Z * Z) :=
+  match cs with
+  | [] => []
+  | c :: r =>
+    match plasma_check fused_amt committed uncommitted (c_base c) (c_f c) (c_d c) (c_pow c) with
+    | POk _ _ nc => (0, nc) :: pool_trace fused_amt committed nc r
+    | PErr e => (e, uncommitted) :: pool_trace fused_amt committed uncommitted r
+    | PPanic => (9, uncommitted) :: pool_trace fused_amt committed uncommitted r
+    end
+  end.
+
 (* ---- base cost of a user block: vm.GetBasePlasmaForAccountBlock. The cost of every embedded method is dumped
    from the real method tables on every run (Consts.MethodPlasmaKeys / MethodPlasmaVals; key = contract address ‖
    selector as one big-endian number). [found]: did embedded.GetEmbeddedMethod find the method under the spork
